@@ -436,9 +436,10 @@ func (h *rotHarness) targetOf(id string, from, ffrom int) string {
 			}
 		}
 	}
+	// a dispatch whose datagram write failed was still directed at its backend (its turn is used up): failed writes
+	// are in Emissions too, marked
 	scan(h.w.N.Emissions, from)
-	// a dispatch whose datagram write failed was still directed at its backend: its turn is used up
-	scan(h.w.N.FailedUDP, ffrom)
+	_ = ffrom
 	return out
 }
 
